@@ -370,6 +370,29 @@ func c16DirectReceivers(c *Case) {
 	}
 }
 
+// string literals of the program text that hold bytes which are no valid UTF-8 (a Latin-1 program, a cut-off
+// sequence): length counts bytes, so a case-mapped copy has the same length wherever no character changes its
+// encoded size, the bytes that are no characters stay as they are, and split('') gives the pieces back
+func c16RawBytes(c *Case) {
+	raws := []string{"A\xffB", "\xff", "ab\xc3", "\xe6\x97", "x\x80y\x80", "\xfe\xffok", "é\xffÉ", "\xc3\xa9\xc3", "Z\xf0\x9f\x98z", "plain"}
+	for _, raw := range raws {
+		for _, meth := range []string{"upper", "lower"} {
+			prog := "BEGIN { s = \"" + raw + "\"; t = s." + meth + "(); print s.length(), t.length(), t." + meth + "() == t, s.split('').length() >= 1; u = ''; for (p in s.split('')) { u = u + p } print u == s, u.length(); print t }"
+			lib := RunLib(prog, nil, nil, RunOpts{Budget: 100000})
+			c.NonTrivial("raw:" + raw + meth)
+			c.Count("raw_byte_string_calls")
+			want := refCase(raw, meth == "upper")
+			n := len(raw)
+			exp := fmt.Sprintf("%d %d true true\ntrue %d\n%s\n", n, len(want), n, want)
+			if lib.Class == "ok" && string(lib.Stdout) == exp {
+				c.Held()
+			} else {
+				c.Violation(fmt.Sprintf("%q.%s(): want %q, got %s (%s) %q", raw, meth, exp, lib.Class, lib.Msg, clip(string(lib.Stdout), 80)), nil, map[string]any{"program": prog})
+			}
+		}
+	}
+}
+
 // one source-level call site applied to receivers of different kinds in turn (whatever a site remembers about the
 // receiver it saw first is wrong for the next), and num() of long digit strings (nearest double)
 func c16SiteAndDigits(c *Case) {
@@ -416,11 +439,12 @@ func c16SiteAndDigits(c *Case) {
 		}
 		ds := sb.String()
 		want, _ := strconv.ParseFloat(ds, 64)
-		lib := RunLib("{ print num($.s) == $.n, num($.s) - $.n }", []InFile{{Name: "in", Data: []byte(`{"s": "` + ds + `", "n": ` + ds + `}`)}}, nil, RunOpts{})
+		// (num of the number itself, a whole number of 15-28 digits: that number)
+		lib := RunLib("{ print num($.s) == $.n && num(num($.s)) == $.n && num($.n) == $.n && num(0 - $.n) == 0 - $.n, num($.s) - $.n + (num($.n) - $.n) }", []InFile{{Name: "in", Data: []byte(`{"s": "` + ds + `", "n": ` + ds + `}`)}}, nil, RunOpts{})
 		c.Count("law_runs:num-of-long-digit-strings")
 		c.NonTrivial("digits:" + ds)
 		if lib.Class != "ok" || string(lib.Stdout) != "true 0\n" {
-			c.Violation(fmt.Sprintf("num(%q) is not the nearest double %v (the same digits read as a JSON number): %s %q", ds, want, lib.Class, clip(string(lib.Stdout), 60)), nil, map[string]any{"digits": ds})
+			c.Violation(fmt.Sprintf("num(%q), num of that result, or num of the number %s itself is not the nearest double %v (the same digits read as a JSON number): %s %q", ds, ds, want, lib.Class, clip(string(lib.Stdout), 60)), nil, map[string]any{"digits": ds})
 			continue
 		}
 		c.Held()
@@ -517,6 +541,9 @@ func c16Run(c *Case) {
 		if c.Idx == 1 {
 			c16SiteAndDigits(c)
 		}
+		if c.Idx == 2 {
+			c16RawBytes(c)
+		}
 	case c.Idx < nm+ns:
 		c16Sampled(c)
 		if c.Idx == nm {
@@ -531,11 +558,11 @@ func c16Run(c *Case) {
 func init() {
 	register(&Prop{
 		ID: "C16", Level: "exploration",
-		Rule:          "enumerated: 13 methods + 3 builtins x 32 receiver values (all 10 kinds) x 9 argument lists (0-3 arguments of several kinds): result vs reference, and never a panic; 14 methods called directly on 23 receiver expressions that were never stored (a character of a string, a call result, a parenthesised expression, a literal, a method result): never a crash, closed-form results for the string cases; 11 programs applying one call site to receivers of several kinds in turn; num() of 60 digit strings of 15-28 digits against the same digits read as a JSON number; sampled: receivers/arguments supplied through the input document so every UTF-8 string is reachable (multi-byte, separators at the ends / repeated / overlapping / empty / longer than the subject; doubles at and around halves, beyond 2^53, tiny; objects and key lists with present/absent/repeated keys and the method names length/pluck; numeric and non-numeric spellings for num) compared with reference functions; algebraic laws checked on the implementation's output alone (split pieces/join, floor<=x<=ceil, round half away, case idempotence, byte length, pluck key set (also for keys with dots over nested objects: a key names an own key, never a path) and immutability, also over 2-5 records in one run whose results are each modified after the call, num(str(x))==x). Non-trivial = non-ASCII / separator at an end or empty / non-integral number / absent key; distinct by call+document.",
+		Rule:          "enumerated: 13 methods + 3 builtins x 32 receiver values (all 10 kinds) x 9 argument lists (0-3 arguments of several kinds): result vs reference, and never a panic; 14 methods called directly on 23 receiver expressions that were never stored (a character of a string, a call result, a parenthesised expression, a literal, a method result): never a crash, closed-form results for the string cases; 11 programs applying one call site to receivers of several kinds in turn; num() of 60 digit strings of 15-28 digits against the same digits read as a JSON number; sampled: receivers/arguments supplied through the input document so every UTF-8 string is reachable (multi-byte, separators at the ends / repeated / overlapping / empty / longer than the subject; doubles at and around halves, beyond 2^53, tiny; objects and key lists with present/absent/repeated keys and the method names length/pluck; numeric and non-numeric spellings for num) compared with reference functions; algebraic laws checked on the implementation's output alone (split pieces/join, floor<=x<=ceil, round half away, case idempotence, byte length, pluck key set (also for keys with dots over nested objects: a key names an own key, never a path) and immutability, also over 2-5 records in one run whose results are each modified after the call, num(str(x))==x). Non-trivial = non-ASCII / separator at an end or empty / non-integral number / absent key; distinct by call+document. String literals of the program holding bytes that are no valid UTF-8 (10 strings x upper / lower): length counts bytes, those bytes stay as they are, split(\"\") gives the pieces back. num() of whole numbers of 15-28 digits (as string, of its own result, of the number itself) is that number.",
 		NumCases:      c16Cases,
 		Run:           c16Run,
 		MinConclusive: func(tier string) int { return 5000 },
 		Exhaustive:    func(tier string) string { return "method/builtin x receiver value x argument list matrix" },
-		Assumptions:   []string{"contracts of DESIGN.md section 3.10", "unicode.ToUpper/ToLower define the case mapping; invalid UTF-8 receivers are [P]"},
+		Assumptions:   []string{"contracts of DESIGN.md section 3.10", "unicode.ToUpper/ToLower define the case mapping; bytes that are no valid UTF-8 are kept as they are (checked on string literals of the program; in the input document the JSON reader replaces them, which is [P])"},
 	})
 }
